@@ -143,6 +143,32 @@ func c05Families(tier string) []explore.Family {
 			r.Violation(c05BodyKey("P5:comment-body-ignored", src, "endcomment"), map[string]any{"template": src}, `"MARK"`, o.String())
 		}
 	}})
+	// two blocks in one template, every pair of spellings of their opening and end tags (blanks, tabs, newlines,
+	// no padding, trim markers): each block ends at ITS OWN first end tag, whatever the other one looks like.
+	// Bodies and the text between carry no whitespace at their edges, so trim markers have nothing to remove.
+	spell := func(name string) []string {
+		return []string{"{% " + name + " %}", "{%" + name + "%}", "{%- " + name + " -%}", "{%  " + name + "  %}", "{%\t" + name + "\t%}", "{%\n" + name + "\n%}", "{% " + name + "\n%}", "{%-" + name + " %}", "{% " + name + "-%}"}
+	}
+	tbBodies := []string{"", "a", "{{ y }}", "{% if %}", "}}", "{%", "{{", "%}x", "a b", "{% endif %}", "{% end", "é"}
+	nSp := len(spell("raw"))
+	fams = append(fams, explore.Family{Name: "two-blocks-all-tag-spellings", Count: int64(2 * nSp * nSp * nSp * len(tbBodies)), Run: func(i int64, r *explore.Rec) {
+		rx := radix{i}
+		b1, e2, e1, o1, kind := tbBodies[rx.next(len(tbBodies))], rx.next(nSp), rx.next(nSp), rx.next(nSp), []string{"raw", "comment"}[rx.next(2)]
+		b2 := tbBodies[(int(i)+5)%len(tbBodies)]
+		opens, ends := spell(kind), spell("end"+kind)
+		src := "<" + opens[o1] + b1 + ends[e1] + "M{{ x }}N" + opens[(o1+e2)%nSp] + b2 + ends[e2] + ">"
+		want := "<MXN>"
+		if kind == "raw" {
+			want = "<" + b1 + "MXN" + b2 + ">"
+		}
+		r.Eval()
+		r.Trace()
+		o := Render(c05.eng, src, map[string]any{"x": "X", "y": "Y"})
+		r.Class("two-blocks/" + kind + "/" + o.Class())
+		if o.Panic != nil || o.Err != nil || o.Out != want {
+			r.Violation("P4:two-blocks:"+kind, map[string]any{"template": src}, strconv.Quote(want), o.String())
+		}
+	}})
 	// raw and comment bodies are opaque for EVERY engine of the process: an engine with the delimiters
 	// [[ ]] [% %] and the default engine take turns on isomorphic bodies ({ } spelled [ ]), and the custom
 	// engine also gets the default-spelled body, which is plain text for it.
